@@ -365,6 +365,29 @@ def audit(db, eff, chk, uname):
             report(ap, label, m, "READ-BEFORE-KILL", f[0],
                    "%s (in %s): a value left by a previous update_routes call is used" % (f[2], f[1].split("::")[-1]))
 
+    # ---------------------------------------------------------------- configuration setters
+    for fn in db.fns(unit=uname, pred=lambda f: f.cls == model.GRAPH_IMPL and
+                     f.name in ("set_mask", "set_base_levels")):
+        kw = KillWalk(eff, lambda key: key[0] == ("this",) and len(key) == 2 and key[1][0] == "f")
+        kw.stack.append(fn.key)
+        rm = {("this",): {(("this",),)}}
+        for i in range(len(fn.params)):
+            rm[("p", i)] = {(("p", i),)}
+        kw.run_fn(fn, rm, frozenset())
+        if not kw.touched:
+            raise AnalysisBroken("C09-P2: %s touches no member in %s" % (fn.name, uname))
+        for key, kinds in sorted(kw.touched.items(), key=lambda x: path_str(x[0])):
+            m = key[1][1]
+            partial = bool(kinds & {"elemw", "grow", "size"}) and "kill" not in kinds
+            stale = key in kw.findings
+            ok = not partial and not stale
+            report(fn, "flow_graph_impl::%s" % fn.name, m,
+                   "replaced as a whole" if ok else
+                   "READ-BEFORE-KILL: updated incrementally without being reset",
+                   (kw.findings.get(key) or (fn.ploc,))[0],
+                   "" if ok else "entries set by a previous %s call survive: the state depends on "
+                   "the history of calls, not only on the current argument" % fn.name)
+
     # ---------------------------------------------------------------- basin graph
     for fn in db.fns(unit=uname, pred=lambda f: f.bn == "fastscapelib::basin_graph::update_routes"):
         rec = [r for (u2, r) in db.records("fastscapelib::basin_graph") if u2.name == uname]
